@@ -84,6 +84,9 @@ pub mod text;
 
 mod lexer;
 
+#[cfg(feature = "verif")]
+pub mod verif;
+
 use bitflags::bitflags;
 use serde::{Deserialize, Serialize};
 
